@@ -1,6 +1,7 @@
 // C04 — multiplier, product reads, barrel shifter, exponent: every encoding of these families x boundary
 // alphabets (all 65536 shift amounts; all 2^32 factor pairs in the thorough tier) against exact arithmetic.
 #pragma once
+#include <map>
 #include "c03_alu.h"
 
 namespace c04 {
@@ -442,6 +443,185 @@ struct Engine {
                              Fmt("c04 mul %u %u %u %d %d %u %u %llu %d", opcode, x, y, hwm, ps, prev_p, prev_pe, (unsigned long long)A, sata));
     }
 
+
+    // ---------- product-sum and dual-multiplier forms (app, mma*, sqr_*, mac1) ----------
+    struct DualPlan {
+        bool valid = false;
+        std::string form;
+        int acc = 0;             // destination accumulator (0..3 = a0,a1,b0,b1)
+        bool sum = true;
+        int base = 1;            // 0 zero, 1 accumulator, 2 sv<<16, 3 sv<<16 | 0x8000
+        bool use0 = true, use1 = true, sub0 = false, al0 = false, sub1 = false, al1 = false;
+        bool mul0 = false, mul1 = false, xs0 = true, ys0 = true, xs1 = true, ys1 = true;
+        // where the factor registers come from: 0 memory (taken from the factor registers after the instruction),
+        // 1 x0<->x1 exchanged, y kept; 2 exchanged, y0 from memory; 3 exchanged, y1 from memory; 4 x from memory, y kept;
+        // 5 both halves of an accumulator squared; 6 high half squared, low half (unsigned) times high half; 7 none
+        int xy = 7;
+        int src_acc = 0;
+        bool memory = false;
+    };
+    static void SumArgs(const DecodeInfo& d, int i, DualPlan& p, bool with_signs) {
+        p.acc = d.args[i] / 4;
+        ++i;
+        if (with_signs) {
+            p.xs0 = d.args[i], p.ys0 = d.args[i + 1], p.xs1 = d.args[i + 2], p.ys1 = d.args[i + 3];
+            p.mul0 = p.mul1 = true;
+            i += 4;
+        }
+        p.base = d.args[i];
+        p.sub0 = d.args[i + 1], p.al0 = d.args[i + 2], p.sub1 = d.args[i + 3], p.al1 = d.args[i + 4];
+    }
+    static DualPlan MakeDualPlan(const DecodeInfo& d) {
+        DualPlan p;
+        std::string n = d.name;
+        auto T = [&](int i) { return std::string(d.arg_types[i]); };
+        if (n == "app" && d.nargs == 6 && T(0) == "Ab") {
+            p.acc = AccIndex(kAb[d.args[0]]);
+            p.base = d.args[1], p.sub0 = d.args[2], p.al0 = d.args[3], p.sub1 = d.args[4], p.al1 = d.args[5];
+            p.xy = 7, p.valid = true;
+        } else if (n == "mma" && d.nargs == 10 && T(0) == "RegName") {
+            SumArgs(d, 0, p, true), p.xy = 1, p.valid = true;
+        } else if (n == "mma" && d.nargs == 15 && T(5) == "RegName") {
+            SumArgs(d, 5, p, true), p.xy = 0, p.memory = true, p.valid = true;
+        } else if ((n == "mma_mx_xy" || n == "mma_xy_mx" || n == "mma_my_my") && d.nargs == 12 && T(2) == "RegName") {
+            SumArgs(d, 2, p, true), p.memory = true, p.valid = true;
+            p.xy = n == "mma_mx_xy" ? 2 : n == "mma_xy_mx" ? 3 : 4;
+        } else if (n == "mma_mov" && d.nargs == 14 && T(4) == "RegName") {
+            SumArgs(d, 4, p, true), p.xy = 1, p.memory = true, p.valid = true;
+        } else if (n == "mma_mov" && d.nargs == 12 && T(2) == "RegName") {
+            SumArgs(d, 2, p, true), p.xy = 1, p.memory = true, p.valid = true;
+        } else if (n == "sqr_sqr_add3" && d.nargs == 2) {
+            p.src_acc = AccIndex(kAb[d.args[0]]), p.acc = AccIndex(kAb[d.args[1]]);
+            p.mul0 = p.mul1 = true, p.xy = 5, p.valid = true;
+        } else if (n == "sqr_sqr_add3" && d.nargs == 3) {
+            p.acc = AccIndex(kAb[d.args[2]]);
+            p.mul0 = p.mul1 = true, p.xy = 0, p.memory = true, p.valid = true;
+        } else if (n == "sqr_mpysu_add3a" && d.nargs == 2) {
+            p.src_acc = AccIndex(kAb[d.args[0]]), p.acc = AccIndex(kAb[d.args[1]]);
+            p.al1 = true, p.mul0 = p.mul1 = true, p.xs1 = false, p.xy = 6, p.valid = true;
+        } else if (n == "mac1" && d.nargs == 4) {
+            p.acc = AccIndex(kAx[d.args[3]]);
+            p.use0 = false, p.mul1 = true, p.xy = 0, p.memory = true, p.valid = true;
+        }
+        if (p.valid)
+            p.form = n + Fmt(":base=%d,%c%s,%c%s,signs=%d%d%d%d,xy=%d", p.base, p.sub0 ? '-' : '+', p.use0 ? (p.al0 ? "p0a" : "p0") : "0", p.sub1 ? '-' : '+',
+                             p.al1 ? "p1a" : "p1", p.xs0, p.ys0, p.xs1, p.ys1, p.xy);
+        return p;
+    }
+    struct DualIn {
+        u16 x0, y0, x1, y1;
+        int hwm, ps0, ps1;
+        u32 p0;
+        u16 pe0;
+        u32 p1;
+        u16 pe1;
+        u64 A;
+        u16 sv;
+        int sata;
+    };
+    std::map<u16, std::vector<u32>> dual_reads; // opcode -> data addresses read (fixed pre-state, so fixed addresses)
+    VState DualState(const DualPlan& p, const DualIn& in) {
+        VState s = base;
+        for (int k = 0; k < 4; ++k)
+            s.r[k] = (u16)(0x6480 + 8 * k), s.r[4 + k] = (u16)(0xCC80 + 8 * k);
+        s.hwm = (u16)in.hwm, s.ps[0] = (u16)in.ps0, s.ps[1] = (u16)in.ps1, s.sata = (u16)in.sata, s.sv = in.sv;
+        s.p[0] = in.p0, s.pe[0] = in.pe0, s.p[1] = in.p1, s.pe[1] = in.pe1;
+        s.x[0] = in.x0, s.y[0] = in.y0, s.x[1] = in.x1, s.y[1] = in.y1;
+        s.a[0] = 0x11223344, s.a[1] = Sx40(0xFF89ABCDEFull), s.b[0] = 0x0055AA55AAull, s.b[1] = Sx40(0x8012345678ull);
+        AccRef(s, p.acc) = in.A;
+        if (p.xy == 5 || p.xy == 6)
+            if (p.src_acc != p.acc)
+                AccRef(s, p.src_acc) = Sx40(((u64)in.x0 << 16) | in.x1 | ((u64)(in.y0 & 0xFF) << 32));
+        return s;
+    }
+    void DualCase(u16 opcode, const DualPlan& p, const DualIn& in) {
+        VState s = DualState(p, in);
+        if (p.memory) {
+            auto it = dual_reads.find(opcode);
+            if (it == dual_reads.end()) {
+                u16 words[2] = {opcode, 0};
+                VState o;
+                RunResult rr;
+                impl.api->run(impl.m, &s, words, 2, 1, &o, &rr);
+                std::vector<u32> addrs;
+                for (int i = 0; i < rr.n_logged; ++i)
+                    if (!rr.log[i].is_write && rr.log[i].addr >= 0x20000)
+                        addrs.push_back(rr.log[i].addr - 0x20000);
+                it = dual_reads.emplace(opcode, addrs).first;
+            }
+            const u16 vals[4] = {in.x0, in.y0, in.x1, in.y1};
+            for (size_t i = 0; i < it->second.size() && i < 4; ++i)
+                impl.api->poke_data(impl.m, it->second[i], vals[i]);
+        }
+        VState out;
+        std::string bad;
+        long long Aeff = S40(AccVal(s, p.acc));
+        if (Exec(s, opcode, 0, out, bad)) {
+            // (1) the sum of the previous products
+            if (p.sum) {
+                long long v0 = p.use0 ? ProductRead(in.p0, in.pe0, in.ps0) : 0, v1 = ProductRead(in.p1, in.pe1, in.ps1);
+                if (p.al0)
+                    v0 >>= 16;
+                if (p.al1)
+                    v1 >>= 16;
+                long long b = p.base == 0 ? 0 : p.base == 1 ? Aeff : (long long)(int)((u32)in.sv << 16);
+                if (p.base == 3)
+                    b |= 0x8000;
+                __int128 t = (__int128)b + (p.sub0 ? -(__int128)v0 : (__int128)v0) + (p.sub1 ? -(__int128)v1 : (__int128)v1);
+                long long r = c03::Oracle::Wrap40(t);
+                bool fe = r != (long long)(int)r;
+                long long stored = r;
+                int flm = s.flm;
+                if (in.sata == 0 && fe)
+                    stored = r < 0 ? -0x80000000ll : 0x7FFFFFFFll, flm = 1;
+                bool fn = r == 0 || (!fe && (((r >> 31) ^ (r >> 30)) & 1));
+                if (AccVal(out, p.acc) != (u64)stored)
+                    bad = Fmt("sum (exact %010llX)", (unsigned long long)(stored & 0xFFFFFFFFFFull));
+                else if (out.flm != flm || out.fz != (r == 0) || out.fm != (r < 0) || out.fe != fe || out.fn != fn)
+                    bad = "sum-flags";
+            }
+            // (2) where the factor registers come from
+            if (bad.empty()) {
+                u64 srcv = AccVal(s, p.src_acc);
+                u16 sh = (u16)(srcv >> 16), sl = (u16)srcv;
+                bool ok = true;
+                switch (p.xy) {
+                case 1: ok = out.x[0] == in.x1 && out.x[1] == in.x0 && out.y[0] == in.y0 && out.y[1] == in.y1; break;
+                case 2: ok = out.x[0] == in.x1 && out.x[1] == in.x0 && out.y[1] == in.y1; break;
+                case 3: ok = out.x[0] == in.x1 && out.x[1] == in.x0 && out.y[0] == in.y0; break;
+                case 4: ok = out.y[0] == in.y0 && out.y[1] == in.y1; break;
+                case 5: ok = out.x[0] == sh && out.y[0] == sh && out.x[1] == sl && out.y[1] == sl; break;
+                case 6: ok = out.x[0] == sh && out.y[0] == sh && out.y[1] == sh && out.x[1] == sl; break;
+                case 7: ok = out.x[0] == in.x0 && out.x[1] == in.x1 && out.y[0] == in.y0 && out.y[1] == in.y1; break;
+                default: break;
+                }
+                if (!ok)
+                    bad = "factor-registers";
+            }
+            // (3) each multiplier: exact product of the factors now in its registers
+            for (int u = 0; u < 2 && bad.empty(); ++u) {
+                bool mul = u ? p.mul1 : p.mul0;
+                if (mul) {
+                    long long prod = ProductModel(out.x[u], out.y[u], u ? p.xs1 : p.xs0, u ? p.ys1 : p.ys0, in.hwm, u);
+                    if (out.p[u] != (u32)prod || out.pe[u] != ((prod >> 32) & 1))
+                        bad = Fmt("product-unit%d (exact %09llX)", u, (unsigned long long)(prod & 0x1FFFFFFFFull));
+                } else if (out.p[u] != s.p[u] || out.pe[u] != s.pe[u] || out.x[u] != s.x[u] || out.y[u] != s.y[u]) {
+                    bad = Fmt("idle-multiplier-unit%d-changed", u);
+                }
+            }
+        }
+        digests.insert(Fnv(&out.p, sizeof(out.p), Mix(opcode) ^ AccVal(out, p.acc) ^ ((u64)out.x[0] << 40)));
+        if (!bad.empty())
+            res.AddViolation(Fmt("c04:dual:%s:%s", p.form.substr(0, p.form.find(':')).c_str(), bad.substr(0, bad.find(" (")).c_str()),
+                             Fmt("opcode %04X (%s): x0=%04X y0=%04X x1=%04X y1=%04X hwm=%d p0=%X:%08X ps0=%d p1=%X:%08X ps1=%d acc=%010llX sv=%04X sata=%d: "
+                                 "implementation x=%04X,%04X y=%04X,%04X p0=%X:%08X p1=%X:%08X acc=%010llX; %s",
+                                 opcode, p.form.c_str(), in.x0, in.y0, in.x1, in.y1, in.hwm, in.pe0, in.p0, in.ps0, in.pe1, in.p1, in.ps1,
+                                 (unsigned long long)(Aeff & 0xFFFFFFFFFFull), in.sv, in.sata, out.x[0], out.x[1], out.y[0], out.y[1], out.pe[0], out.p[0], out.pe[1],
+                                 out.p[1], (unsigned long long)(AccVal(out, p.acc) & 0xFFFFFFFFFFull), bad.c_str()),
+                             Fmt("c04 dual %u %u %u %u %u %d %d %d %u %u %u %u %llu %u %d", opcode, in.x0, in.y0, in.x1, in.y1, in.hwm, in.ps0, in.ps1, in.p0, in.pe0,
+                                 in.p1, in.pe1, (unsigned long long)in.A, in.sv, in.sata));
+    }
+
     // ---------- product read of unit 1 (mov p1 -> acc) ----------
     void ProdReadCase(u16 opcode, const DecodeInfo& d, u32 pv, u16 pe, int ps, int sata) {
         VState s = base;
@@ -495,6 +675,16 @@ inline int RunReplay(const std::string& r, Result& res) {
         if (!p.valid)
             return 2;
         e.MulCase((u16)op, p, (u16)a, (u16)b, i1, i2, c, (u16)d2, A, i3);
+    } else if (r.rfind("c04 dual ", 0) == 0) {
+        unsigned x0, y0, x1, y1, p0, pe0, p1, pe1, sv;
+        int hwm, ps0, ps1, sata;
+        if (std::sscanf(r.c_str(), "c04 dual %u %u %u %u %u %d %d %d %u %u %u %u %llu %u %d", &op, &x0, &y0, &x1, &y1, &hwm, &ps0, &ps1, &p0, &pe0, &p1, &pe1, &A, &sv, &sata) != 15)
+            return 2;
+        e.impl.api->decode((u16)op, &d);
+        auto p = Engine::MakeDualPlan(d);
+        if (!p.valid)
+            return 2;
+        e.DualCase((u16)op, p, Engine::DualIn{(u16)x0, (u16)y0, (u16)x1, (u16)y1, hwm, ps0, ps1, p0, (u16)pe0, p1, (u16)pe1, A, (u16)sv, sata});
     } else if (std::sscanf(r.c_str(), "c04 pread %u %u %u %d %d", &op, &a, &b, &i1, &i2) == 5) {
         e.impl.api->decode((u16)op, &d);
         e.ProdReadCase((u16)op, d, a, (u16)b, i1, i2);
@@ -594,6 +784,37 @@ inline void Run(const Args& args, Result& res) {
                                         for (int sata = 0; sata < 2; ++sata)
                                             e.MulCase((u16)op, mp, 0x7FFF, 0x8000, 0, ps, pr.first, pr.second, A, sata);
                     }
+                    // ---- product sums and the dual-multiplier forms ----
+                    auto dp = Engine::MakeDualPlan(d);
+                    if (dp.valid) {
+                        ++local.states;
+                        static const u16 F[8] = {0x0000, 0x0001, 0x7FFF, 0x8000, 0xFFFF, 0x34C7, 0x00FF, 0xFF00};
+                        bool rich = swept.insert("dual|" + dp.form).second;
+                        int k = 0;
+                        for (int pass = 0; pass < 2; ++pass)
+                            for (int a = 0; a < 8; ++a)
+                                for (int b = 0; b < 8; ++b)
+                                    for (int hwm = 0; hwm < 4; ++hwm, ++k) {
+                                        Engine::DualIn in;
+                                        u16 fa = F[a], fb = F[b], ga = F[(a * 3 + b + 1) & 7], gb = F[(a + b * 5 + 2) & 7];
+                                        in.x0 = pass ? ga : fa, in.y0 = pass ? gb : fb, in.x1 = pass ? fa : ga, in.y1 = pass ? fb : gb;
+                                        in.hwm = hwm, in.ps0 = k & 3, in.ps1 = (k >> 2) & 3;
+                                        auto q0 = prods[k % prods.size()], q1 = prods[(k * 5 + 7) % prods.size()];
+                                        in.p0 = q0.first, in.pe0 = q0.second, in.p1 = q1.first, in.pe1 = q1.second;
+                                        in.A = accs_small[k % accs_small.size()], in.sv = o16[k % o16.size()], in.sata = (k >> 4) & 1;
+                                        e.DualCase((u16)op, dp, in);
+                                    }
+                        if (rich)
+                            for (auto q0 : prods)
+                                for (auto q1 : prods)
+                                    for (int ps = 0; ps < 16; ++ps)
+                                        for (size_t ai = 0; ai < accs_small.size(); ai += 7)
+                                            for (int sata = 0; sata < 2; ++sata) {
+                                                Engine::DualIn in{0x7FFF, 0x8000, 0x34C7, 0x00FF, 0, ps & 3, ps >> 2, q0.first, q0.second, q1.first, q1.second,
+                                                                  accs_small[ai], o16[(ai + ps) % o16.size()], sata};
+                                                e.DualCase((u16)op, dp, in);
+                                            }
+                    }
                     if (n == "mov_p1_to" && ArgsAre(d, {"Ab"})) {
                         ++local.states;
                         for (auto pr : prods)
@@ -625,15 +846,17 @@ inline void Run(const Args& args, Result& res) {
             res);
     res.rule = "every encoding of shfc/shfi/movs/movsi/moda-shift (A40 or O16 values x all 65536 shift amounts for one encoding per form, boundary "
                "amounts for the rest x shift mode x sata), exp/exp_r6 (every sign/run-length class + O16), multiply and multiply-accumulate forms "
-               "(O16 x O16 factors x half-word mode x product shift x previous products x accumulators x sata) and mov p1 (product alphabet x 4 "
-               "shifts) is executed on the implementation and compared with exact integer models of product, product read, shift, carry, "
+               "(O16 x O16 factors x half-word mode x product shift x previous products x accumulators x sata), every product-sum and "
+               "dual-multiplier form (app, mma*, sqr_*, mac1: 8x8 factors on each unit x half-word mode, previous products x product shifts of both "
+               "units x accumulators x sv x sata) and mov p1 (product alphabet x 4 shifts) is executed on the implementation and compared with exact integer models of product, product read, shift, carry, "
                "overflow, saturation and exponent; distinct = distinct (opcode, operands, result) digests";
     res.bound = Fmt("all 65536 first words decoded; shift amounts: all 65536; factors: O16xO16 (24x24)%s; exponent: all 80 (sign, run length) classes x 3 tails",
                     th ? " + all 2^32 factor pairs for the 4 sign selections" : "");
     res.assumptions = {"saturation after a shift applies in arithmetic shift mode only (reading of the statement, matches the hardware-validated code)",
                        "carry for a shift amount of 0 is not checked (nothing is shifted out)",
                        "half-word mode selects y>>8 / y&0xFF as a 16-bit quantity before the signed/unsigned interpretation",
-                       "carry/overflow flags of multiply-accumulate sums and the product-sum (mma) families are left to C01"};
+                       "carry/overflow flags of multiply-accumulate and product sums are left to C01 (two partial additions; the code itself marks their combination as uncertain)",
+                       "memory-sourced factors of the dual forms are taken from the factor registers after the instruction (which cell feeds which register is addressing, C10/C01)"};
     res.AddSample("shfc a0->a1 with sv=0028 (left by exactly 40), value 0000000001: statement carry = bit 0 = 1");
     res.AddSample("macus y0,r0 with x=8000 y=0001: exact product 1FFFF8000 (33 bits), pe=1");
 }
